@@ -77,6 +77,19 @@ static void ledger_release_all(void)
     ledger_live = 0;
 }
 
+/* "BARE" runs (unsanitised configurations only: os-unsanitised, o3-unsanitised): a_alloc is left at the library's default allocator - no hook at all, which is how every user
+   who does not install one runs - and the refusal comes from the C library itself: this file defines `realloc`, which preempts glibc's for the whole program (the static
+   liba.a included), passes everything on to __libc_realloc and refuses the k-th growth request made while a library call is in flight. Code that behaves differently when
+   `a_alloc == a_alloc_` (seeded change C07-N: after a refused growth it asks malloc_usable_size whether the old block happens to be big enough, carries on, and records
+   the amortised capacity for a block that only holds the requested one) is dead under any hook, and inert under ASan / valgrind, whose usable size is the requested size. */
+#if !defined(__SANITIZE_ADDRESS__) && !defined(__SANITIZE_THREAD__) && defined(__GLIBC__)
+#define VF_BARE 1
+#include <malloc.h>
+extern void *__libc_realloc(void *, size_t);
+static int bare_on; /* a library call of a bare run is in flight */
+#else
+#define VF_BARE 0
+#endif
 /* per case: grants, releases and refusals go through the library's default allocator a_alloc_ (1) or straight to the C library (0) */
 static int native_alloc;
 static void *vf_alloc_fn(void *addr, a_size size)
@@ -134,6 +147,25 @@ static void *vf_alloc_fn(void *addr, a_size size)
     }
     return NULL;
 }
+
+#if VF_BARE
+void *realloc(void *p, size_t n)
+{
+    if (bare_on && p && n)
+    {
+        ++req_count;
+        ++req_in_op;
+        if (fail_at && (fail_persistent ? req_count >= fail_at : req_count == fail_at))
+        {
+            fault_fired = 1;
+            ++fired_total;
+            if (fired_req_in_op < 0) { fired_req_in_op = req_in_op; }
+            return NULL; /* the old block stays alive */
+        }
+    }
+    return __libc_realloc(p, n);
+}
+#endif
 
 /* ------------------------------------------------------------------ history description */
 enum
@@ -740,6 +772,7 @@ static void site_cell(int op, int reqidx, int persistent)
 }
 
 /* returns number of allocation requests made; fault_k == 0: fault-free */
+static int bare_run; /* this run leaves a_alloc at the default allocator and injects through the interposed realloc */
 static uint64_t run_history(uint64_t fault_k, int persistent)
 {
     seqst sq;
@@ -757,7 +790,7 @@ static uint64_t run_history(uint64_t fault_k, int persistent)
     fail_at = fault_k;
     fail_persistent = persistent;
     ledger_live = 0;
-    a_alloc = vf_alloc_fn;
+    a_alloc = bare_run ? a_alloc_ : vf_alloc_fn;
     for (int i = 0; i < Hn && !broken; ++i)
     {
         opd const *o = &H[i];
@@ -768,12 +801,26 @@ static uint64_t run_history(uint64_t fault_k, int persistent)
         req_in_op = 0;
         fired_req_in_op = -1;
         if (vf.explain) { vf_log("  [%s k=%" PRIu64 "] op %d %s a=%zu b=%zu%s", persistent == 2 ? "tight" : persistent ? "persistent" : fault_k ? "single" : "fault-free", fault_k, i, cur_op, o->a, o->b, attempt ? " (retry)" : ""); }
+#if VF_BARE
+        bare_on = bare_run;
+#endif
         switch (Hkind)
         {
         case 0: case 1: status = seq_exec(&sq, o); break;
         case 2: status = str_exec(&st, o, &want_term); break;
         default: status = que_exec(&qu, o); break;
         }
+#if VF_BARE
+        bare_on = 0;
+        /* the block a vector owns must hold the capacity it claims (the C library's own account of the block) */
+        if (bare_run && status != ST_BROKEN && Hkind == 0 && sq.v && a_vec_ptr(sq.v) && malloc_usable_size(a_vec_ptr(sq.v)) < a_vec_mem(sq.v) * a_vec_siz(sq.v))
+        {
+            FAIL("capacity-exceeds-the-block-owned", "after op %d the vector claims %zu x %zu = %zu bytes, the C library says its block holds %zu", i, (size_t)a_vec_mem(sq.v), (size_t)a_vec_siz(sq.v),
+                 (size_t)(a_vec_mem(sq.v) * a_vec_siz(sq.v)), malloc_usable_size(a_vec_ptr(sq.v)));
+            broken = 1;
+            break;
+        }
+#endif
         if (status == ST_BROKEN) { broken = 1; break; }
         if (status == ST_SKIP) { continue; }
         if (status == ST_FAIL)
@@ -881,6 +928,23 @@ static void vf_case(uint64_t c, vf_rng *r)
         VF_COUNT("tight-memory-runs");
         if (vf.case_viol) { return; }
     }
+#if VF_BARE
+    {
+        uint64_t B;
+        bare_run = 1;
+        B = run_history(0, 0);
+        VF_ADD("bare-default-allocator-growth-requests", B);
+        for (uint64_t k = 1; k <= B && !vf.case_viol; ++k)
+        {
+            vf_log("bare default allocator: the C library refuses growth request %" PRIu64 " of %" PRIu64 " (single, then persistent)", k, B);
+            run_history(k, 0);
+            ++vf.evals;
+            VF_COUNT("bare-default-allocator-fault-runs");
+            if (!vf.case_viol) { run_history(k, 1); ++vf.evals; }
+        }
+        bare_run = 0;
+    }
+#endif
     if (vf_want_sample() && c % 5 == 0)
     {
         vf_sample("history %" PRIu64 ": %s, %d ops, %" PRIu64 " allocation requests; re-run from scratch with each request failing alone (failed op retried) and with all requests from it onward failing; state compared with the model after every call, ledger audited at destruction", c, kind_names[Hkind], Hn, A);
